@@ -77,8 +77,10 @@ def step (u : Unit) (toks : List String) : Unit × String :=
   | "choose" :: dry :: mx :: mn :: bef :: jsize :: k :: rest =>
     let cks := (readChunks (natOf k) rest).1
     let p : Params := { dryRun := dry == "1", maxSrc := natOf mx, minSrc := natOf mn, oldestTs := intOf bef }
-    let ch := choose strict p cks (natOf jsize)
-    let r := truncate strict p cks (natOf jsize)
+    -- `jsize` (what Journal.Size() would answer) is no longer read by truncate: the total is the snapshot sum
+    let _ := jsize
+    let ch := choose strict p cks
+    let r := truncate strict p cks
     (u, s!"{r.n} {r.removed} {ch.bySize} {ch.byTime} {joinWith "," (r.chunks.map (fun c => toString c.id))}")
   | "run" :: dry :: mx :: mn :: bef :: mdb :: np :: rest =>
     let parts := readParts (natOf np) rest
